@@ -7,6 +7,10 @@ BASELINE_OFF = ("cd /repo && cargo nextest run --workspace --no-fail-fast --test
 
 # id -> (level, technique, design_ref, text, note)
 CHECKS = {
+ "C12": ("exploration", "exhaustive enumeration of all short bucket names over a reduced alphabet and of key x host x host-parser products, on the real S3Service::call and constructors",
+         "DESIGN §4 C12",
+         "All strings of length 0..6 (thorough 7) over {a,A,1,.,-,_} plus boundary and reserved shapes, in both addressing styles, judged by a sandwich between the core and the complete published naming rules; 35 keys (every character class the statement names, 1023/1024/1025 bytes) x 6 host-parser configurations x base-domain / bucket.domain / IPv4 / IPv6 socket hosts with the backend's (bucket,key) compared to the client's; all ordered selections of <=3 of 11 domains for the constructors.",
+         "foreign hosts are totality-only by design; names between the two rule sets are not judged; characters outside the alphabets are not covered"),
  "C14": ("exploration", "exhaustive enumeration of boundary-field products and of all short strings near each grammar, against reference codecs, on the real public functions",
          "DESIGN §4 C14",
          "Timestamps: the full product of boundary calendar fields x UTC offsets x 3 formats (identity and instant preservation against proleptic-Gregorian arithmetic, itself cross-checked per instant with aws-smithy-types). Ranges: all small values and all strings of <=5 (6) symbols over a grammar-near alphabet against the RFC 9110 single-range grammar and interval function. Copy sources: bucket x key x version alphabets as a client and as the library encode them. Content types: a grammar product.",
